@@ -226,7 +226,7 @@ class C10(common.Check):
         probes["many_l0"] = int(case.get("family") == "many-l0")
         sched = common.key_hash(tr.schedule)
         n_api = sum(1 for o in case["ops"] if o["op"] in ("protect", "unprotect"))
-        return {"viol": viol, "digest": tr.world.digest(), "key": common.key_hash([case, sched]) if n_api >= 2 else None,
+        return {"viol": viol, "digest": tr.world.digest(), "key": common.key_hash([case, sched]) if n_api >= 2 else None, "sched_key": sched if tr.schedule else None,
                 "fired": {"sched_choice_points": st.get("choice_points", 0), "seg": st.get("seg", 0), "clk": st.get("clk", 0), "noconn": st.get("noconn", 0),
                           "slowconn": st.get("slowconn", 0)},
                 "probes": probes, "vtime_ns": st.get("vtime_ns", 0)}
